@@ -160,6 +160,13 @@ def reject_programs():
         add("element_clone_%s" % re.sub(r"\W+", "_", tr), ok, "    let v: AnyVec<%s> = AnyVec::new::<u32>();\n    let _c = v.element_clone();" % tr)
         add("lazy_clone_%s" % re.sub(r"\W+", "_", tr), ok,
             "    use any_vec::any_value::AnyValueCloneable;\n    let mut v: AnyVec<%s> = AnyVec::new::<u32>();\n    v.push(AnyValueWrapper::new(1u32));\n    let e = v.at(0);\n    let _l = e.lazy_clone();" % tr)
+        # every handle kind that can be lazily cloned: only with Cloneable
+        pre = "    use any_vec::any_value::AnyValueCloneable;\n    let mut v: AnyVec<%s> = AnyVec::new::<u32>();\n    v.push(AnyValueWrapper::new(1u32));\n" % tr
+        for hname, hexpr in [("at_mut", "v.at_mut(0)"), ("get", "v.get(0).unwrap()"), ("iter_item", "v.iter().next().unwrap()"),
+                             ("iter_mut_item", "v.iter_mut().next().unwrap()"), ("pop", "v.pop().unwrap()"), ("remove", "v.remove(0)"),
+                             ("swap_remove", "v.swap_remove(0)"), ("drain_item", "v.drain(..).next().unwrap()"),
+                             ("splice_item", "v.splice(.., Vec::<AnyValueWrapper<u32>>::new()).next().unwrap()")]:
+            add("lazy_clone_%s_%s" % (hname, re.sub(r"\W+", "_", tr)), ok, pre + "    let h = %s;\n    let _l = h.lazy_clone();" % hexpr)
     for be, bty, ok in [("heap", "Heap", True), ("stack", "Stack<64>", False), ("stackn", "StackN<4, 64>", False), ("empty", "Empty", False)]:
         for meth in ["reserve(4)", "reserve_exact(4)", "shrink_to_fit()", "shrink_to(2)"]:
             mname = meth.split("(")[0]
